@@ -172,18 +172,22 @@ def run_tasks(modname, tasks, workers=None, in_process=False):
 	out = [None] * len(tasks)
 	# watchdog: a task that does not come back (non-terminating code under test, stuck controller) makes the run
 	# INCONCLUSIVE (exit 2) - never a VIOLATION, since no failing input can be shown
-	limit = float(os.environ.get('VERIF_TASK_TIMEOUT') or 3600)
+	limit = float(os.environ.get('VERIF_TASK_TIMEOUT') or (3600 if os.environ.get('VERIF_TIER_RUNNING') != 'thorough' else 7200))
 	ex = ProcessPoolExecutor(max_workers=workers, mp_context=ctx)
 	try:
 		futs = {ex.submit(_run_task, modname, f, kw): i for i, (f, kw) in enumerate(tasks)}
-		try:
-			for fut in as_completed(futs, timeout=limit):
+		# progress-based: the limit is the longest time WITHOUT any task completing (a long run of many tasks is not a hang)
+		from concurrent.futures import wait, FIRST_COMPLETED
+		pending = set(futs)
+		while pending:
+			done, pending = wait(pending, timeout=limit, return_when=FIRST_COMPLETED)
+			if not done:
+				stuck = [tasks[futs[f]] for f in pending]
+				for p in list(ex._processes.values()):
+					p.kill()
+				raise HarnessError(f'{len(stuck)} task(s) still running and none finished within the last {limit:.0f}s (possible non-termination), first: {stuck[0]}')
+			for fut in done:
 				out[futs[fut]] = fut.result()
-		except TimeoutError:
-			stuck = [tasks[i] for fut, i in futs.items() if not fut.done()]
-			for p in list(ex._processes.values()):
-				p.kill()
-			raise HarnessError(f'{len(stuck)} task(s) did not finish within {limit:.0f}s (possible non-termination), first: {stuck[0]}')
 	finally:
 		ex.shutdown(wait=False, cancel_futures=True)
 	return out
@@ -373,6 +377,7 @@ def main(argv=None):
 		for fn in os.listdir(REPLAY_DIR):
 			if fn.startswith(pid + '-'):
 				os.unlink(os.path.join(REPLAY_DIR, fn))
+	os.environ['VERIF_TIER_RUNNING'] = args.tier
 	tasks = mod.plan(args.tier, seed)
 	capped_by_filter = False
 	if args.only:
